@@ -11,19 +11,57 @@ RULE_MODULES: Dict[str, str] = {
     "R3": "r03_protocol",
     "R4": "r04_schedule",
     "R5": "r05_mintable",
+    "R6": "r06_order",
+    "R7": "r07_sites",
     "R11": "r11_reply",
 }
 
 # property -> list of obligation-id prefixes ("R1" selects every obligation of R1,
 # "R1/O3" only that sub-obligation)
 PROPERTY_RULES: Dict[str, List[str]] = {
-    "C01": ["R1/O1", "R1/O4", "R1/O5"],
-    "C05": ["R1/O4", "R1/O5"],
-    "C10": ["R1/O3", "R1/O4"],
+    "C01": ["R1/O1", "R1/O4", "R1/O5", "R2/INFLIGHT", "R2/sink", "R2/anc", "R2/own", "R2/until", "R2/extra", "R3/P1", "R3/P4", "R3/P5", "R5", "R6"],
+    "C02": ["R2/INFLIGHT", "R2/anc", "R2/own", "R3/P", "R4", "R11/schedule", "R11/sched-value", "R11/time-arg", "R11/last-step"],
+    "C05": ["R1/O4", "R1/O5", "R2", "R4/wake", "R4/settle", "R4/wait", "R5", "R6", "R7/site"],
+    "C08": ["R6"],
+    "C11": ["R7/R9"],
+    "C06": ["R5", "R6", "R7/site"],
+    "C07": ["R2/INFLIGHT", "R2/sink", "R2/anc", "R2/own", "R2/until", "R2/extra", "R3/P3", "R5/store", "R5/update_min"],
+    "C09": ["R3/R12", "R4/outtime"],
+    "C10": ["R1/O3", "R1/O4", "R2/INFLIGHT", "R2/sink", "R2/own"],
+    "C13": ["R11", "R3/P2", "R3/P6"],
     "C16": ["R1/O2", "R1/O4"],
+    "C17": ["R2/rt", "R4/wait"],
 }
 
 EXPLANATION: Dict[str, str] = {}
+
+# what each check decides (structural clauses) and what it leaves undecided
+CLAIMS: Dict[str, Tuple[str, str]] = {
+    "C01": ("the wait set before a step (strict has_passed on every predecessor with the connection's minimum delay, awaited to completion), the Progress wake-up protocol, completeness of the progress bound incl. steps in flight, min-tables independent of registration order, the atomic publish of a finished step's triggers",
+            "sufficiency of these local obligations for causality under all interleavings (inductive protocol argument)"),
+    "C02": ("who creates/moves/removes demanded steps, dedup + wake-iff-earlier in schedule_step, self-step iff < until, trigger iff attribute present at output time + delay, popped step == settled progress, bounds see steps in flight",
+            "equality of the executed and the demanded step set over all behaviours"),
+    "C05": ("no lost wake-up (Progress, next_step_settled), every wait target is dominated by a bound containing until, progress bounds are minima over all step sources, comparison sites of the partial interval order",
+            "absence of deadlock for all accepted scenarios (liveness of the whole protocol)"),
+    "C06": ("min-tables and update_min contract, lexicographic order methods, comparison sites (two path-sum sites are the known finding D16)",
+            "exactness of the closure over all multigraphs"),
+    "C07": ("term completeness of max_advance incl. in-flight ancestors, <= until, = until without trigger ancestors, the value reaches the simulator unchanged",
+            "traceability of later steps over a whole run"),
+    "C08": ("TieredInterval.__lt__ is a lexicographic scan, TieredTime.__lt__ a tuple comparison, derived operators consistent (total_ordering + frozen dataclass)",
+            "monotonicity of arrival time, associativity, action law (value arithmetic)"),
+    "C09": ("guard placement before the step, all sub-tiers, >= against the configured bound, SimulationError naming the simulator, sub-tier accounting of the output time",
+            "'time then advances normally' (behaviour)"),
+    "C10": ("under the flag every direct consumer contributes a has_reached(next_step + adapt) wait that is awaited before the step; the consumer's progress is a lower bound on its outstanding steps",
+            "the run-ahead bound over executions"),
+    "C11": ("identity semantics of simulator groups (no structural equality under equality-based lookups)",
+            "rejection table and no-effect-before-rejection are added by R20/R10 when implemented"),
+    "C13": ("decision table of scheduler.step / get_outputs over the reply: every malformed reply class has a dominating SimulationError naming the simulator and precedes every effect; the popped step is never re-inserted",
+            "reply classes not listed in the statement"),
+    "C16": ("the producer waits unconditionally for its async consumers",
+            "the ordering clause over executions; gating/consume-once are added by R10/R17 when implemented"),
+    "C17": ("real-time progress term present, guarded by rt_factor and measured from rt_start; polling wait with timeout=rt_factor and progress advance after each wake-up",
+            "every wall-clock clause (timing is a runtime quantity)"),
+}
 
 ASSUMPTIONS_COMMON = [
     "CPython's ast/compile/symtable give the same program the interpreter runs",
@@ -46,7 +84,4 @@ def rules_for(prop: str) -> List[str]:
 
 
 def selected(prop: str, oid: str) -> bool:
-    for sel in PROPERTY_RULES.get(prop, []):
-        if oid == sel or oid.startswith(sel + "/") or (("/" in sel) and oid.startswith(sel)) or oid.split("/")[0] == sel:
-            return True
-    return False
+    return any(oid == sel or oid.startswith(sel) for sel in PROPERTY_RULES.get(prop, []))
